@@ -142,7 +142,10 @@ func (u *UDP) SetInternalPortsForTesting() {
 }
 
 func (u *UDP) VerifyChecksum() (error, gopacket.ChecksumVerificationResult) {
-	bytes := append(u.Contents, u.Payload...)
+	// Contents usually has spare capacity reaching into the packet's buffer, so
+	// appending to it would write into data that other readers share.
+	bytes := make([]byte, 0, len(u.Contents)+len(u.Payload))
+	bytes = append(append(bytes, u.Contents...), u.Payload...)
 
 	existing := u.Checksum
 	verification, err := u.computeChecksum(bytes, IPProtocolUDP)
